@@ -28,8 +28,27 @@ MA 02110-1301, USA. */
 using namespace std;
 
 
+static istream &
+__gmp_extract_body (istream &i, mpq_ptr q);
+
 istream &
 operator>> (istream &i, mpq_ptr q)
+{
+  /* Parse with the exception mask off: the characters are fetched with
+     get(), which sets failbit together with eofbit when a valid number is the
+     last thing in the stream; with exceptions (failbit) that threw before the
+     value was assigned.  Restoring the mask throws if the final state calls
+     for it, as a failed extraction should.  */
+  ios::iostate ex = i.exceptions ();
+  i.exceptions (ios::goodbit);
+  try { __gmp_extract_body (i, q); }
+  catch (...) { i.exceptions (ex); throw; }
+  i.exceptions (ex);
+  return i;
+}
+
+static istream &
+__gmp_extract_body (istream &i, mpq_ptr q)
 {
   if (! (i >> mpq_numref(q)))
     return i;
